@@ -233,6 +233,16 @@ def emptiness_loops_without_variant(ctx, f):
             continue
         body_ids = {id(n) for st in t.owner.body for n in ast.walk(st)}
         progress = set()
+        # a body with its own exits (break / return / raise) under conditions that read X: a re-ordering of X may steer the loop to
+        # that exit (greedy precompute: each SWAP fixes one more position until `pos_in_stack == 0` breaks) — termination is then an
+        # argument about the data, out of reach here; only loops whose sole way out through X is its emptiness are claimed for
+        # length-preserving re-bindings
+        # (the path `pos_in_stack` neither > 16, == 0 nor > 0 is infeasible as well, and only an interval argument would say so)
+        own_exits = any(isinstance(c, (ast.Break, ast.Return, ast.Raise)) for st in t.owner.body for c in ast.walk(st))
+        steered = own_exits and any(isinstance(c, (ast.If, ast.IfExp)) and any(is_name(y, x) for y in ast.walk(c.test))
+                                    for st in t.owner.body for c in ast.walk(st))
+        if steered:
+            continue
         for n in cfg.nodes:
             if n.ast is None or n is t:
                 continue
@@ -318,6 +328,9 @@ def stale_loop_flags(ctx, f):
 STORE_VOCAB = ["MSTORE", "MSTORE8", "SSTORE", "MLOAD", "SLOAD", "KECCAK256", "ADD", "PUSH"]
 
 
+MULTIPLICITY = {}      # (caller qualname, id(call)) -> {opcode: number of the literals the caller passes that select it} (only > 1)
+
+
 def store_predicates(ctx, modules):
     """Predicates over a record's "disasm" that select stores.  Yields (finfo, expr, accepted set) for every boolean expression
     (lambda body, comprehension filter, if test) that mentions <x>["disasm"] together with a store opcode literal."""
@@ -363,19 +376,36 @@ def store_predicates(ctx, modules):
                         if f not in ctx.r.resolve_call(g, c):
                             continue
                         a = c.args[pos] if len(c.args) > pos else next((k.value for k in c.keywords if k.arg == pname), None)
-                        if isinstance(a, ast.Constant) and isinstance(a.value, str) and a.value in STORE_VOCAB:
-                            per_caller.setdefault(g.qual, (g, c, set()))[2].add(a.value)
+                        lits_here = []
+                        if isinstance(a, ast.Constant) and isinstance(a.value, str):
+                            lits_here = [a.value]
+                        elif isinstance(a, ast.Name):
+                            # the loop / comprehension variable over a constant tuple of opcode names:  for op in STORE_OPS: f(.., op)
+                            for it in [x.iter for x in ast.walk(g.node) if isinstance(x, (ast.For, ast.comprehension)) and isinstance(x.target, ast.Name)
+                                       and x.target.id == a.id]:
+                                tup = it
+                                if isinstance(it, ast.Name):
+                                    defs = [n.value for n in g.module.tree.body if isinstance(n, ast.Assign) and any(isinstance(t, ast.Name) and t.id == it.id for t in n.targets)]
+                                    tup = defs[-1] if defs else None
+                                if isinstance(tup, (ast.Tuple, ast.List, ast.Set)):
+                                    lits_here += [e.value for e in tup.elts if isinstance(e, ast.Constant) and isinstance(e.value, str)]
+                        for lit in lits_here:
+                            if lit in STORE_VOCAB:
+                                per_caller.setdefault(g.qual, (g, c, []))[2].append(lit)
                 for gq, (g, c, passed) in sorted(per_caller.items()):
                     acc = set()
+                    times = {}
                     try:
-                        for lit in passed:
+                        for lit in sorted(set(passed)):
                             env2 = dict(genv)
                             env2[pname] = lit
                             for op in STORE_VOCAB:
                                 if Evaluator(fn, globals_env=env2).call({"disasm": op, "inpt_sk": [], "outpt_sk": [], "id": op + "_0"}):
                                     acc.add(op)
+                                    times[op] = times.get(op, 0) + 1
                     except (Unsupported, Raised):
                         continue
+                    MULTIPLICITY[(g.qual, id(c))] = {op: k for op, k in times.items() if k > 1}
                     yield g, c, acc
                 continue
             if free:
@@ -665,3 +695,53 @@ def misplaced_named_arguments(ctx):
                     if isinstance(other, ast.Name) and other.id == a.id:
                         continue
                     yield f, c, i, a.id, params[i], j
+
+
+# ------------------------------------------------------------------------------------------------------------
+def iterations_without_progress(ctx, f):
+    """`while` loops over plain local counters / lists in which some path through the body returns to the test without passing any
+    statement that writes or mutates a variable of the test (typically a `continue` placed before the `i += 1`).  The test has the same
+    value again, and — when the statements on that path do not change anything else the path's own branch conditions read — the loop
+    never ends.  Yields (loop, witness statement on the path).  Only loops whose test mentions names alone (no calls, no attributes)."""
+    from .cfg import CFG
+    whiles = [n for n in own_nodes(f.node) if isinstance(n, ast.While)]
+    if not whiles:
+        return
+    cfg = ctx.cfg(f)
+    for loop in whiles:
+        if any(isinstance(x, (ast.Call, ast.Attribute)) for x in ast.walk(loop.test)) or isinstance(loop.test, ast.Constant):
+            continue
+        tv = {x.id for x in ast.walk(loop.test) if isinstance(x, ast.Name)}
+        if not tv:
+            continue
+        inner = {id(x) for st in loop.body for x in ast.walk(st)}
+        test = next((n for n in cfg.nodes if n.kind == "test" and n.owner is loop), None)
+        if test is None:
+            continue
+        # whatever the branch conditions of the body read counts as state of the iteration as well (fixpoint loops:
+        #   while not done: new = step(cur); if new != cur: cur = new else: done = True)
+        for st in loop.body:
+            for x in ast.walk(st):
+                if isinstance(x, (ast.If, ast.While, ast.IfExp)):
+                    tv |= {y.id for y in ast.walk(x.test) if isinstance(y, ast.Name)}
+        progress = set()
+        for n in cfg.nodes:
+            a = n.ast
+            if a is None or id(a) not in inner and not (n.kind in ("test", "iter") and id(getattr(n, "owner", None)) in inner):
+                continue
+            if n.kind == "stmt":
+                wrote = False
+                for x in ast.walk(a):
+                    if isinstance(x, ast.Name) and isinstance(x.ctx, (ast.Store, ast.Del)) and x.id in tv:
+                        wrote = True
+                    elif isinstance(x, ast.Call) and isinstance(x.func, ast.Attribute) and x.func.attr in MUTATORS and isinstance(x.func.value, ast.Name) and x.func.value.id in tv:
+                        wrote = True
+                    elif isinstance(x, ast.Subscript) and isinstance(x.ctx, (ast.Store, ast.Del)) and isinstance(x.value, ast.Name) and x.value.id in tv:
+                        wrote = True
+                    elif isinstance(x, ast.Call) and any(isinstance(g, ast.Name) and g.id in tv for g in x.args):
+                        wrote = True          # handed to a call: may be mutated
+                if wrote or isinstance(a, (ast.Return, ast.Raise, ast.Break)):
+                    progress.add(n.id)
+        if cfg.paths_avoiding(test, test, progress, src_labels={"T"}, skip_exc=True):
+            conts = [x for st in loop.body for x in ast.walk(st) if isinstance(x, ast.Continue)]
+            yield loop, (conts[0] if conts else loop)
